@@ -165,7 +165,8 @@ impl<'a> Analyzer<'a> {
                 ref child, lo, hi, ..
             } => {
                 let child_info = self.visit(child)?;
-                min_size = child_info.min_size.saturating_mul(lo);
+                // `{lo,hi}` with lo > hi runs exactly hi times in the VM
+                min_size = child_info.min_size.saturating_mul(lo.min(hi));
                 const_size = child_info.const_size && lo == hi;
                 hard = child_info.hard;
                 children.push(child_info);
